@@ -277,7 +277,7 @@ func CompareDump(c *column.Collection, m *Model, keyProbe []string, rows []uint3
 		for _, off := range wantLive {
 			if v, ok := m.Rows[off][kc.Name]; ok {
 				if prev, dup := seen[v.S]; dup {
-					return violation("key/duplicate-in-model", "model rows %d and %d both hold key %q", prev, off, v.S)
+					return violation("key/duplicate", "model rows %d and %d both hold key %q", prev, off, v.S)
 				}
 				seen[v.S] = off
 			}
